@@ -1,6 +1,7 @@
 package pongo2
 
 type tagIncludeNode struct {
+	origin            *Template // the template the tag is written in
 	tpl               *Template
 	filenameEvaluator IEvaluator
 	lazy              bool
@@ -41,10 +42,11 @@ func (node *tagIncludeNode) Execute(ctx *ExecutionContext, writer TemplateWriter
 			return ctx.Error("Filename for 'include'-tag evaluated to an empty string.", nil)
 		}
 
-		// Get include-filename
-		includedFilename := ctx.template.set.resolveFilename(ctx.template, filename.String())
+		// Get include-filename (relative to the template the tag is written
+		// in, which is not the one being executed if that extends it)
+		includedFilename := node.origin.set.resolveFilename(node.origin, filename.String())
 
-		includedTpl, err2 := ctx.template.set.FromFile(includedFilename)
+		includedTpl, err2 := node.origin.set.FromFile(includedFilename)
 		if err2 != nil {
 			// if this is ReadFile error of the very file, and "if_exists" flag is enabled
 			if node.ifExists && err2.(*Error).Sender == "fromfile" && err2.(*Error).Filename == includedFilename {
@@ -83,6 +85,7 @@ func (node *tagIncludeEmptyNode) Execute(ctx *ExecutionContext, writer TemplateW
 
 func tagIncludeParser(doc *Parser, start *Token, arguments *Parser) (INodeTag, *Error) {
 	includeNode := &tagIncludeNode{
+		origin:    doc.template,
 		withPairs: make(map[string]IEvaluator),
 	}
 
